@@ -305,6 +305,19 @@ def run_boundary(spec, out):
                 except Exception:
                     pass
             out["counters"]["warmed_up_cases"] = out["counters"].get("warmed_up_cases", 0) + 1
+            # ... and other directory stores of the same process have read the very same key where it is legal for them
+            # (it resolves inside their root): what one instance has learnt about a key says nothing about another root
+            if not key.startswith("/"):
+                for r2 in (os.path.join(box, "root_backup"), os.path.join(box, "sibling"), box, os.path.join(root, "a")):
+                    p2 = os.path.normpath(os.path.join(r2, key))
+                    if p2 == r2 or p2.startswith(r2 + os.sep):
+                        other = FileStore(r2)
+                        for f in (other.contains, other.is_dir, other.get_bytes):
+                            try:
+                                f(key)
+                            except Exception:
+                                pass
+                        out["counters"]["other_instance_warmups"] = out["counters"].get("other_instance_warmups", 0) + 1
         before = digest_tree(box, skip=root)
         res, exc = None, None
         with watching(root, scratch):
